@@ -6,8 +6,11 @@ package main
 
 import (
 	"fmt"
+	"go/types"
 	"sort"
 	"strings"
+
+	"golang.org/x/tools/go/ssa"
 )
 
 type Obl struct {
@@ -58,6 +61,7 @@ type Ctx struct {
 	usedContracts map[*Contract]bool
 	lazyArr  map[string]func(idx string) string
 	lazyDone map[string]bool
+	globalsSeen map[string]globalCell // "pkg.name" -> cell
 	nonlinear bool
 	mulMemo  map[string]string
 	quant    bool // emit quantified axioms for copy/append (default: pointwise on demand)
@@ -65,7 +69,7 @@ type Ctx struct {
 
 func newCtx(eng *Engine, name string) *Ctx {
 	c := &Ctx{eng: eng, declSet: map[string]string{}, defs: map[string]string{}, memSorts: map[string]string{},
-		notes: map[string]int{}, strs: map[string]string{}, funcName: name, usedContracts: map[*Contract]bool{}, lazyArr: map[string]func(string) string{}, lazyDone: map[string]bool{}, mulMemo: map[string]string{}}
+		notes: map[string]int{}, strs: map[string]string{}, funcName: name, usedContracts: map[*Contract]bool{}, lazyArr: map[string]func(string) string{}, lazyDone: map[string]bool{}, mulMemo: map[string]string{}, globalsSeen: map[string]globalCell{}}
 	return c
 }
 
@@ -209,4 +213,64 @@ func (o *Obl) script(produceModels bool) string {
 		}
 	}
 	return b.String()
+}
+
+// strLit returns the literal text of a string constant term.
+func (c *Ctx) strLit(term string) (string, bool) {
+	if term == "|str!empty|" {
+		return "", true
+	}
+	for lit, name := range c.strs {
+		if name == term {
+			return lit, true
+		}
+	}
+	return "", false
+}
+
+type globalCell struct {
+	ref string
+	typ types.Type
+}
+
+func globalKey(g *ssa.Global) string {
+	if g.Pkg != nil {
+		return "g|" + g.Pkg.Pkg.Path() + "." + g.Name()
+	}
+	return "g|" + g.Name()
+}
+
+func (c *Ctx) seeGlobal(g *ssa.Global) {
+	k := globalKey(g)
+	if _, ok := c.globalsSeen[k]; !ok {
+		c.globalsSeen[k] = globalCell{ref: num(c.eng.globalRef(g)), typ: deref(g.Type())}
+	}
+}
+
+// restoreGlobals: after an array-level havoc, package-level variables that the callee does
+// not assign keep their value (assumption: package-level variables are written only by
+// direct assignments, not through escaped pointers to them).
+func (c *Ctx) restoreGlobals(old, nh *Heap, ms *ModSet) *Heap {
+	if ms != nil && ms.top {
+		return nh
+	}
+	var keys []string
+	for k := range c.globalsSeen {
+		keys = append(keys, k)
+	}
+	sort.Strings(keys)
+	for _, k := range keys {
+		if ms != nil && ms.m[k] {
+			continue
+		}
+		cell := c.globalsSeen[k]
+		l := locOfRef(cell.ref, cell.typ)
+		for _, acc := range l.accs {
+			if ms != nil && !ms.m[acc.mem] {
+				continue // array not havocked
+			}
+			nh = c.storeAcc(nh, acc, c.loadAcc(old, acc))
+		}
+	}
+	return nh
 }
